@@ -10,13 +10,12 @@
   tracepoint, every op sequence (register / unregister / poll responses / apply tasks in any order).  No bound.
   Handles are fresh naturals standing for uuid4 texts (uniqueness of uuid4 is assumed).
 
-  Atomicity (disclosed): `register` and `unregister` are single steps of the model — the statement quantifies over
-  SEQUENCES of calls.  `add_custom` / `remove_custom` change two parallel lists in two statements without a lock, so
-  two application threads calling register / unregister AT THE SAME TIME can misalign the lists (a handle then
-  removes another registration); that is outside these theorems and is replayed by the check as a known-finding
-  candidate (line-granular preemption of one call by another).  A poll answer concurrent with a register /
-  unregister is covered: it touches disjoint fields (`c13_service_disjoint`), and is exercised by the same
-  preemption stream.
+  Atomicity (disclosed): register / unregister are atomic steps — the statement quantifies over SEQUENCES of calls.
+  Two application threads inside add_custom / remove_custom at once can misalign the two parallel lists (a handle then
+  removes another registration): outside the statement, observed on the real code with a forced line gate (the check
+  runs those cases under the label 'outside-statement' and does not judge them).  A poll answer concurrent with a
+  register / unregister is covered: it touches disjoint fields (`c13_service_disjoint`) and is exercised by the
+  line-preemption stream.
 -/
 import DeepModel.Proofs.ConfigSvc
 
